@@ -25,7 +25,68 @@ sys.exit(1 if bad else 0)
 '''
 
 
+GENERIC = r"""
+import sys, itertools
+import onnx
+from onnx import helper, TensorProto
+import onnx_ir as ir
+import onnxscript.optimizer as opt
+API = %r
+
+def model():
+    x = helper.make_tensor_value_info("x", TensorProto.FLOAT, [2])
+    y = helper.make_tensor_value_info("y", TensorProto.FLOAT, [2])
+    f = helper.make_function("local", "F", ["a"], ["b"], [helper.make_node("Relu", ["a"], ["b"])],
+                             [helper.make_opsetid("", 18)])
+    unused = helper.make_function("local", "Unused", ["a"], ["b"], [helper.make_node("Abs", ["a"], ["b"])],
+                             [helper.make_opsetid("", 18)])
+    c = helper.make_node("Constant", [], ["c"], value=helper.make_tensor("c", TensorProto.FLOAT, [2], [1.0, 2.0]))
+    c2 = helper.make_node("Add", ["c", "c"], ["c2"])
+    dead = helper.make_node("Neg", ["x"], ["dead"])
+    n1 = helper.make_node("F", ["x"], ["t"], domain="local")
+    n2 = helper.make_node("Add", ["t", "c2"], ["y"])
+    g = helper.make_graph([c, c2, dead, n1, n2], "g", [x], [y])
+    return helper.make_model(g, opset_imports=[helper.make_opsetid("", 18), helper.make_opsetid("local", 1)],
+                             functions=[f, unused], producer_name="p")
+
+def variants():
+    if API == "optimizer.optimize":
+        for inline, shp, stop, n, lim in itertools.product([True, False], [True, False], [True, False], [0, 1, 2], [0, 1024]):
+            yield dict(num_iterations=n, onnx_shape_inference=shp, stop_if_no_change=stop, inline=inline,
+                       input_size_limit=lim, output_size_limit=lim)
+    elif API == "optimizer.fold_constants":
+        for shp, lim in itertools.product([True, False], [0, 1, 1024]):
+            yield dict(onnx_shape_inference=shp, input_size_limit=lim, output_size_limit=lim)
+    else:
+        yield {}
+
+fn = {"optimizer.optimize": opt.optimize, "optimizer.fold_constants": opt.fold_constants,
+      "optimizer.remove_unused_nodes": opt.remove_unused_nodes,
+      "optimizer.remove_unused_functions": opt.remove_unused_functions}[API]
+functional = API == "optimizer.optimize"
+bad = 0
+for kw in variants():
+    ref = ir.serde.deserialize_model(model())
+    r = fn(ref, **kw)
+    want = ir.serde.serialize_model(ref)
+    p = model()
+    r = fn(p, **kw)
+    got = r if functional else p
+    if got.SerializeToString(deterministic=True) != want.SerializeToString(deterministic=True):
+        bad += 1
+        print(f"{API}(**{kw}): the ModelProto form differs from the serialization of the IR form")
+        for f in ("ir_version", "opset_import", "producer_name", "graph", "functions", "metadata_props"):
+            if str(getattr(got, f)) != str(getattr(want, f)):
+                print("   field", f, "differs")
+        break
+sys.exit(1 if bad else 0)
+"""
+
+
 def replay(ob):
     if "convert_version" in ob["name"]:
         return CONVERT
+    for api in ("optimizer.optimize", "optimizer.fold_constants", "optimizer.remove_unused_nodes", "optimizer.remove_unused_functions"):
+        if f"C15.{api}." in ob["name"]:
+            return GENERIC % api
     return None
